@@ -8,6 +8,7 @@ import (
 	"encoding/json"
 	"fmt"
 	"sort"
+	"strings"
 
 	gogotypes "github.com/gogo/protobuf/types"
 
@@ -60,6 +61,12 @@ func oracleC15(x *Exec, r *StepRec) {
 		return
 	}
 	pre, post := r.Pre, r.Post
+	for _, e := range post.ParseErrs {
+		if strings.HasPrefix(e, "0x01") || strings.HasPrefix(e, "0x02") || strings.HasPrefix(e, "0x03") || strings.HasPrefix(e, "0x04") || strings.HasPrefix(e, "0x05") || strings.HasPrefix(e, "0x06") {
+			x.viol("C15", "key_value", fmt.Sprintf("after %s: %s", describeStep(r), e), nil)
+			return
+		}
+	}
 	// definitions never change or disappear
 	names := make([]string, 0, len(x.tr.DefBytes))
 	for n := range x.tr.DefBytes {
